@@ -46,6 +46,67 @@ def _is_private(name):
     return name.startswith("_") and not (name.startswith("__") and name.endswith("__"))
 
 
+SHAPES_FILE = os.path.join(os.path.dirname(os.path.abspath(__file__)), "inventory_shapes.json")
+_shapes = None
+
+
+def shapes():
+    """qualname -> shape digest of the private functions of the reference tree (see function_shape)"""
+    global _shapes
+    if _shapes is None:
+        try:
+            with open(SHAPES_FILE) as f:
+                _shapes = json.load(f)
+        except (OSError, ValueError):
+            _shapes = {}
+    return _shapes
+
+
+def function_shape(fn):
+    """A digest of a function that survives renaming: statement and expression structure with every identifier (names,
+    parameters, attribute names, the function's own name) replaced by the order of its first occurrence; docstrings dropped."""
+    import hashlib
+    order = {}
+
+    def nm(x):
+        return order.setdefault(x, len(order))
+    parts = []
+
+    def rec(n):
+        if isinstance(n, ast.Name):
+            parts.append("N%d" % nm(n.id))
+        elif isinstance(n, ast.arg):
+            parts.append("A%d" % nm(n.arg))
+        elif isinstance(n, ast.Attribute):
+            rec(n.value)
+            parts.append(".%d" % nm("." + n.attr))
+        elif isinstance(n, ast.Constant):
+            parts.append("C%r" % (n.value,))
+        elif isinstance(n, ast.AST):
+            parts.append(type(n).__name__)
+            parts.append("(")
+            for field, v in ast.iter_fields(n):
+                if field in ("ctx", "lineno", "col_offset", "end_lineno", "end_col_offset", "type_comment", "name", "decorator_list",
+                             "returns"):
+                    continue
+                if isinstance(v, list):
+                    vs = v
+                    if field == "body" and vs and isinstance(vs[0], ast.Expr) and isinstance(getattr(vs[0], "value", None), ast.Constant) \
+                            and isinstance(vs[0].value.value, str):
+                        vs = vs[1:]
+                    parts.append("[")
+                    for x in vs:
+                        rec(x)
+                    parts.append("]")
+                elif isinstance(v, ast.AST):
+                    rec(v)
+                elif v is not None and field not in ("id", "arg", "attr"):
+                    parts.append(repr(v))
+            parts.append(")")
+    rec(fn)
+    return hashlib.sha1(" ".join(parts).encode("utf-8")).hexdigest()[:16]
+
+
 def _params(fn):
     a = fn.args
     return [x.arg for x in list(getattr(a, "posonlyargs", [])) + list(a.args)]
@@ -129,9 +190,54 @@ def undo_renames(modname, tree, inv):
         # frozen, so pair when the counts agree and the call sites tell: every caller of the old name is gone.
         if len(missing) == 1 and len(new) == 1:
             mapping[new[0]] = missing[0]
+        else:
+            # several helpers renamed at once: pair a new name with the missing one whose body has the same shape modulo names
+            sh = shapes()
+            want = {}
+            for o in missing:
+                d = sh.get(prefix + "." + o)
+                if d:
+                    want.setdefault(d, []).append(o)
+            got = {}
+            for nname in new:
+                got.setdefault(function_shape(cur[nname]), []).append(nname)
+            for d, ns in got.items():
+                if len(ns) == 1 and len(want.get(d, [])) == 1:
+                    mapping[ns[0]] = want[d][0]
     if mapping:
         _RenameAttr(mapping).visit(tree)
     return mapping
+
+
+def apply_renames_across(trees, mappings):
+    """A private method renamed in its own module is still called under the new name from other modules: give those call sites
+    the reference name too.  `mappings`: module -> {new: old} as found by undo_renames; a new name that some module still
+    defines (or binds as an attribute) is left alone."""
+    allmap = {}
+    for m, mp in mappings.items():
+        for new, old in mp.items():
+            allmap.setdefault(new, set()).add(old)
+    allmap = dict((new, list(olds)[0]) for new, olds in allmap.items() if len(olds) == 1)
+    if not allmap:
+        return {}
+    defined = set()
+    for t in trees.values():
+        for x in ast.walk(t):
+            if isinstance(x, (ast.FunctionDef, ast.AsyncFunctionDef, ast.ClassDef)):
+                defined.add(x.name)
+            elif isinstance(x, ast.Attribute) and isinstance(x.ctx, ast.Store):
+                defined.add(x.attr)
+    allmap = dict((n_, o_) for n_, o_ in allmap.items() if n_ not in defined)
+    done = {}
+    for m, t in trees.items():
+        hit = False
+        for x in ast.walk(t):
+            if isinstance(x, ast.Attribute) and x.attr in allmap:
+                x.attr = allmap[x.attr]
+                hit = True
+        if hit:
+            done[m] = True
+    return done
 
 
 # ----------------------------------------------------------------------------- inlining
